@@ -273,6 +273,51 @@ pub struct Info {
 }
 
 impl Operation {
+    /// Returns the operand counts the instruction accepts, None for macro calls
+    pub fn operand_counts(&self) -> Option<&'static [usize]> {
+        match self {
+            Operation::Custom(_) => None,
+            Operation::Lpm | Operation::Elpm => Some(&[0, 2]),
+            Operation::Br(BranchT::Bs) | Operation::Br(BranchT::Bc) => Some(&[2]),
+            Operation::Br(_) => Some(&[1]),
+            Operation::Ijmp
+            | Operation::Eijmp
+            | Operation::Icall
+            | Operation::Eicall
+            | Operation::Ret
+            | Operation::Reti
+            | Operation::Spm
+            | Operation::Se(_)
+            | Operation::Cl(_)
+            | Operation::Break
+            | Operation::Nop
+            | Operation::Sleep
+            | Operation::Wdr => Some(&[0]),
+            Operation::Com
+            | Operation::Neg
+            | Operation::Inc
+            | Operation::Dec
+            | Operation::Tst
+            | Operation::Clr
+            | Operation::Ser
+            | Operation::Rjmp
+            | Operation::Jmp
+            | Operation::Rcall
+            | Operation::Call
+            | Operation::Push
+            | Operation::Pop
+            | Operation::Lsl
+            | Operation::Lsr
+            | Operation::Rol
+            | Operation::Ror
+            | Operation::Asr
+            | Operation::Swap
+            | Operation::Bset
+            | Operation::Bclr => Some(&[1]),
+            _ => Some(&[2]),
+        }
+    }
+
     /// Returns how many words the instruction takes up
     pub fn info(&self, constants: &dyn Context) -> Info {
         match self {
